@@ -20,6 +20,8 @@ pub mod hybsim;
 pub mod fmtparse;
 pub mod hyboracle;
 pub mod hybchecks;
+pub mod c12check;
+pub mod c15check;
 
 use common::{Failure, ReplayFile, Tier, case_from};
 
@@ -30,8 +32,10 @@ pub fn dispatch(prop: &str, tier: Tier, seed: u64) -> i32 {
         "C05" => memchecks::check_c05(tier, seed),
         "C06" => fetchcheck::check_c06(tier, seed),
         "C11" => fetchcheck::check_c11(tier, seed),
+        "C12" => c12check::check_c12(tier, seed),
         "C13" => memchecks::check_c13(tier, seed),
         "C14" => evcheck::check_c14(tier, seed),
+        "C15" => c15check::check_c15(tier, seed),
         "C16" => c16check::check_c16(tier, seed),
         "C17" => c17check::check_c17_memory_only(tier, seed).finish(),
         "C18" => memchecks::check_c18(tier, seed),
@@ -53,6 +57,8 @@ pub fn replay(rf: &ReplayFile) -> anyhow::Result<Option<Failure>> {
         ("C17", "memory-collide") => c17check::replay_mem(case_from(rf)?),
         ("C17", "inflight-collide") => c17check::replay_fetch(case_from(rf)?),
         ("C16", _) => c16check::exec_c16(&case_from(rf)?).failure,
+        ("C12", _) => c12check::exec_c12(&case_from(rf)?).failure,
+        ("C15", _) => c15check::exec_c15(&case_from(rf)?).failure,
         ("C14", _) => evcheck::exec_c14(&case_from(rf)?).failure,
         ("C05" | "C13" | "C18", _) => memchecks::replay_mem(&rf.property, case_from(rf)?),
         (p, s) => anyhow::bail!("no replay handler for {p}/{s}"),
